@@ -6,6 +6,17 @@ const v2pkg = "app/core/hydra/swamp/chronicler/v2"
 
 var Checks = []CheckDef{
 	{
+		ID: "C06", Title: "Single-client API behaves like a simple key-value model",
+		Claim:   "bounded symbolic execution of the real Gateway handlers on top of a real in-memory swamp (treasure, guard, vigil, beacon, safeops, conversion code all real): every sequence of up to maxRequests requests out of Set (create/overwrite flags, one or two items, possibly the same key twice, int64 or string values), Get, Delete, Count, IsKeyExist, IncrementInt64, Uint32SlicePush, Uint32SliceDelete, Uint32SliceSize and ShiftByKeys over two keys with SYMBOLIC values: every response (error vs result, per-item statuses, values, counts, existence flags, set sizes) and the swamp's existence after every request (auto-removal of an emptied swamp) match a reference key-value model written from the proto documentation, and every request returns (deadlock detector)",
+		Trusted: "SummonSwamp/IsExistSwamp come from a minimal in-harness server that hands out real in-memory swamps (the real summoning protocol is C18); where the documentation is silent or contradictory the model accepts either behaviour (identical re-Set: UPDATED or NOTHING_CHANGED; Count on a missing swamp: error or IsExist=false; pushing onto a key of another type is outside the claim)",
+		Harnesses: []HarnessDef{
+			{Pkg: "app/server/gateway", Func: "VerifC06Model", Quick: map[string]int{"maxRequests": 2}, Thorough: map[string]int{"maxRequests": 3}, Covers: []string{"end"}},
+		},
+		Assumptions: []string{"2 keys, 1 swamp, in-memory swamp type", "IncrementBy != 0 (documented precondition)"},
+		Stubs:       []string{"zeus.Zeus / hydra.Hydra = in-harness fakes embedding the interfaces", "sync/time = scheduler and clock models"},
+		Outside:     []string{"persistent swamps (C01/C05 cover the storage side)", "typed increments other than int64, conditions and metadata requests", "streaming RPCs"},
+	},
+	{
 		ID: "C18", Title: "At most one live in-memory instance per swamp",
 		Claim:   "preemption-bounded exploration of the real hydra.SummonSwamp / getSwamp / closeEventCallbackFunction with real in-memory swamps: (a) 3 concurrent summoners of one name, the first optionally with an already cancelled context; (b) 2 summoners while the current instance is being destroyed by a third thread (they wait in WaitForGracefulClose for the real Destroy to complete): at quiescence at most one constructed-but-not-closed instance exists, every successful summoner holds the instance the server has mapped, and every summoner with a live context succeeds",
 		Trusted: "createNewSwamp is redirected to a harness function that builds a real in-memory swamp wired to the hydra's real callbacks and counts live instances (settings/paths/chronicler are C20/C21/C01); sync.Map/Cond/Mutex/atomics/context are scheduler models; busy-wait loops are scheduled fairly (a thread polling the same non-blocking select twice without anybody else running has to give way); in (b) no timer elapses",
